@@ -604,4 +604,84 @@ VARIANTS += [
     # 
     PV("n6-C18-2", NO14, "selftest/patches/n6-C18-2.diff"),
     PV("n7-memo-env-keyed-with-prefix", ["C01", "C05", "C06", "C09", "C15", "C18"], "selftest/patches/n7-memo-env-keyed-with-prefix.diff"),
+    # cvss/cvss3.py, behaviour-preserving: (1) get_value() is table driven - the Scope-Changed Privileges Required weights moved to a module const (independent sub-agent, round 5)
+    PV("n7-C01-1", ["C01", "C02", "C03", "C04", "C05", "C06", "C07", "C08", "C09", "C10", "C11", "C12", "C13", "C14", "C15", "C16", "C17", "C18", "C19", "C20"], "selftest/patches/n7-C01-1.diff"),
+    # cvss/cvss3.py, behaviour-preserving: (1) the Scope-Changed impact polynomial that was spelled out three times (compute_isc, compute_modified (independent sub-agent, round 5)
+    PV("n7-C01-2", ["C01", "C02", "C03", "C04", "C05", "C06", "C07", "C08", "C09", "C10", "C11", "C12", "C13", "C14", "C15", "C16", "C17", "C18", "C19", "C20"], "selftest/patches/n7-C01-2.diff"),
+    # Behaviour-preserving refactoring of the effective-value resolution and EQ6 in cvss/cvss4.py. (1) m(): the four `if metric == ... and selecte (independent sub-agent, round 5)
+    PV("n7-C02-1", ["C01", "C02", "C03", "C04", "C05", "C06", "C07", "C08", "C09", "C10", "C11", "C12", "C13", "C14", "C15", "C16", "C17", "C18", "C19", "C20"], "selftest/patches/n7-C02-1.diff"),
+    # Behaviour-preserving refactoring of the joint EQ3/EQ6 next-lower macrovector in CVSS4.compute_base_score() (cvss/cvss4.py). A local helper l (independent sub-agent, round 5)
+    PV("n7-C02-2", ["C01", "C02", "C03", "C04", "C05", "C06", "C07", "C08", "C09", "C10", "C11", "C12", "C13", "C14", "C15", "C16", "C17", "C18", "C19", "C20"], "selftest/patches/n7-C02-2.diff"),
+    # cvss/cvss2.py, behaviour preserving: impact_equation() and adjusted_impact_equation() share a new helper CVSS2._impact_remainder(with_requir (independent sub-agent, round 5)
+    PV("n7-C03-1", ["C01", "C02", "C03", "C04", "C05", "C06", "C07", "C08", "C09", "C10", "C11", "C12", "C13", "C14", "C15", "C16", "C17", "C18", "C19", "C20"], "selftest/patches/n7-C03-1.diff"),
+    # cvss/cvss2.py, behaviour preserving: the two 'is the whole group ND?' all()-generator tests are replaced by a new helper CVSS2._is_group_def (independent sub-agent, round 5)
+    PV("n7-C03-2", ["C01", "C02", "C03", "C04", "C05", "C06", "C07", "C08", "C09", "C10", "C11", "C12", "C13", "C14", "C15", "C16", "C17", "C18", "C19", "C20"], "selftest/patches/n7-C03-2.diff"),
+    # cvss/cvss3.py, CVSS3.parse_vector (behaviour-preserving): the startswith('CVSS:3.0/') / startswith('CVSS:3.1/') if-chain becomes a for/else  (independent sub-agent, round 5)
+    PV("n7-C04-1", ["C01", "C02", "C03", "C04", "C05", "C06", "C07", "C08", "C09", "C10", "C11", "C12", "C13", "C15", "C16", "C17", "C18", "C19", "C20"], "selftest/patches/n7-C04-1.diff"),
+    # cvss/cvss2.py (behaviour-preserving): CVSS2.parse_vector becomes table driven. A module-level dict _LEGAL_FIELDS maps every legal 'metric:va (independent sub-agent, round 5)
+    PV("n7-C04-2", ["C01", "C02", "C03", "C04", "C05", "C06", "C07", "C08", "C09", "C10", "C11", "C12", "C13", "C15", "C16", "C17", "C18", "C19", "C20"], "selftest/patches/n7-C04-2.diff"),
+    # cvss/cvss4.py, behaviour-preserving refactoring of the code that makes an absent optional metric and an explicit X equivalent and that rende (independent sub-agent, round 5)
+    PV("n7-C05-1", ["C01", "C02", "C03", "C04", "C05", "C06", "C07", "C08", "C09", "C10", "C11", "C12", "C13", "C15", "C16", "C17", "C18", "C19", "C20"], "selftest/patches/n7-C05-1.diff"),
+    # cvss/cvss3.py and cvss/cvss2.py, behaviour-preserving refactoring of parsing, Not Defined handling and clean_vector: (1) CVSS3.parse_vector( (independent sub-agent, round 5)
+    PV("n7-C05-2", ["C01", "C02", "C03", "C04", "C05", "C06", "C07", "C08", "C09", "C10", "C11", "C12", "C13", "C15", "C16", "C17", "C18", "C19", "C20"], "selftest/patches/n7-C05-2.diff"),
+    # Behaviour-preserving refactoring of cvss/cvss3.py lines 175-220 (handle_scope, add_missing_optional, get_value): new helper CVSS3.is_defined (independent sub-agent, round 5)
+    PV("n7-C06-1", ["C01", "C02", "C03", "C04", "C05", "C06", "C07", "C08", "C09", "C10", "C11", "C12", "C13", "C14", "C15", "C16", "C17", "C18", "C19", "C20"], "selftest/patches/n7-C06-1.diff"),
+    # Behaviour-preserving refactoring of cvss/cvss4.py (add_missing_optional, m(), no-impact test in compute_base_score): m() is table driven - t (independent sub-agent, round 5)
+    PV("n7-C06-2", ["C01", "C02", "C03", "C04", "C05", "C06", "C07", "C08", "C09", "C10", "C11", "C12", "C13", "C14", "C15", "C16", "C17", "C18", "C19", "C20"], "selftest/patches/n7-C06-2.diff"),
+    # cvss/cvss2.py and cvss/cvss3.py: clean_vector() loop-with-nested-ifs turned into a single generator expression over the same ordered METRICS (independent sub-agent, round 5)
+    PV("n7-C07-1", ["C01", "C02", "C03", "C04", "C05", "C06", "C07", "C08", "C09", "C10", "C11", "C12", "C13", "C15", "C16", "C17", "C18", "C19", "C20"], "selftest/patches/n7-C07-1.diff"),
+    # cvss/cvss4.py and cvss/cvss2.py: clean_vector() no longer walks the ordered METRICS_ABBREVIATIONS table probing the parsed metrics; it walks (independent sub-agent, round 5)
+    PV("n7-C07-2", ["C01", "C02", "C03", "C04", "C05", "C06", "C07", "C08", "C09", "C10", "C11", "C12", "C13", "C15", "C16", "C17", "C18", "C19", "C20"], "selftest/patches/n7-C07-2.diff"),
+    # Behaviour-preserving refactoring of the v2/v3 anchors. cvss/cvss3.py: CVSS3.clean_vector() - the accumulate-in-a-loop body was split into a  (independent sub-agent, round 5)
+    PV("n7-C08-1", ["C01", "C02", "C03", "C04", "C05", "C06", "C07", "C08", "C09", "C10", "C11", "C12", "C13", "C15", "C16", "C17", "C18", "C19", "C20"], "selftest/patches/n7-C08-1.diff"),
+    # Behaviour-preserving refactoring of the v4 and interactive anchors. cvss/cvss4.py: CVSS4.clean_vector() computes the prefix first with a con (independent sub-agent, round 5)
+    PV("n7-C08-2", ["C01", "C02", "C03", "C04", "C05", "C06", "C07", "C08", "C09", "C10", "C11", "C12", "C13", "C15", "C16", "C17", "C18", "C19", "C20"], "selftest/patches/n7-C08-2.diff"),
+    # Behaviour-preserving refactoring of the severity threshold chains. cvss/cvss3.py: the if/elif chain inside CVSS3.severities() is extracted i (independent sub-agent, round 5)
+    PV("n7-C09-1", ["C01", "C02", "C03", "C04", "C05", "C06", "C07", "C08", "C09", "C10", "C11", "C12", "C13", "C14", "C15", "C16", "C17", "C18", "C19", "C20"], "selftest/patches/n7-C09-1.diff"),
+    # Behaviour-preserving refactoring of the score clamps / Decimal->float conversion. cvss/cvss2.py: the three 'max(D("0.0"), x)' clamps go thro (independent sub-agent, round 5)
+    PV("n7-C09-2", ["C01", "C02", "C03", "C04", "C05", "C06", "C07", "C08", "C09", "C10", "C11", "C12", "C13", "C14", "C15", "C16", "C17", "C18", "C19", "C20"], "selftest/patches/n7-C09-2.diff"),
+    # cvss/cvss3.py, CVSS3.as_json(): table-driven rewrite (50 changed lines). The add_metric_to_data closure and the three copy-pasted blocks (ba (independent sub-agent, round 5)
+    PV("n7-C10-1", ["C01", "C02", "C03", "C04", "C05", "C06", "C07", "C08", "C09", "C10", "C11", "C12", "C13", "C15", "C16", "C17", "C18", "C19", "C20"], "selftest/patches/n7-C10-1.diff"),
+    # cvss/cvss2.py, CVSS2.as_json(): restructured (58 changed lines, plus 'import re'). The us() and add_metric_to_data() closures are merged int (independent sub-agent, round 5)
+    PV("n7-C10-2", ["C01", "C02", "C03", "C04", "C05", "C06", "C07", "C08", "C09", "C10", "C11", "C12", "C13", "C15", "C16", "C17", "C18", "C19", "C20"], "selftest/patches/n7-C10-2.diff"),
+    # Behaviour-preserving refactoring of CVSS2.as_json() (cvss/cvss2.py) and CVSS3.as_json() (cvss/cvss3.py): the duplicated temporal/environment (independent sub-agent, round 5)
+    PV("n7-C11-1", ["C01", "C02", "C03", "C04", "C05", "C06", "C07", "C08", "C09", "C10", "C11", "C12", "C13", "C15", "C16", "C17", "C18", "C19", "C20"], "selftest/patches/n7-C11-1.diff"),
+    # Behaviour-preserving refactoring with a different control flow. CVSS2.as_json() (cvss/cvss2.py): 'build everything, then drop' - all metric  (independent sub-agent, round 5)
+    PV("n7-C11-2", ["C01", "C02", "C03", "C04", "C05", "C06", "C07", "C08", "C09", "C10", "C11", "C12", "C13", "C15", "C16", "C17", "C18", "C19", "C20"], "selftest/patches/n7-C11-2.diff"),
+    # cvss/cvss2.py and cvss/cvss3.py (same edit in both): from_rh_vector() merges the two consecutive try/except ValueError blocks (split('/', 1) (independent sub-agent, round 5)
+    PV("n7-C12-1", ["C01", "C02", "C03", "C04", "C05", "C06", "C07", "C08", "C09", "C10", "C11", "C12", "C13", "C15", "C16", "C17", "C18", "C19", "C20"], "selftest/patches/n7-C12-1.diff"),
+    # cvss/cvss4.py: CVSS4.from_rh_vector() is split into helpers: a static _rh_malformed(vector) that builds the CVSS4RHMalformedError with the u (independent sub-agent, round 5)
+    PV("n7-C12-2", ["C01", "C02", "C03", "C04", "C05", "C06", "C07", "C08", "C09", "C10", "C11", "C12", "C13", "C15", "C16", "C17", "C18", "C19", "C20"], "selftest/patches/n7-C12-2.diff"),
+    # cvss/parser.py only (35 insertions, 16 deletions). Helper extraction + table-driven dispatch: the candidate regex (unchanged pattern) is com (independent sub-agent, round 5)
+    PV("n7-C13-1", ["C01", "C02", "C03", "C04", "C05", "C06", "C07", "C08", "C09", "C10", "C11", "C12", "C13", "C15", "C16", "C17", "C18", "C19", "C20"], "selftest/patches/n7-C13-1.diff"),
+    # cvss/parser.py only (19 insertions, 11 deletions), inside parse_cvss_from_text(). (1) findall() + `match.startswith('CVSS:3.')` became findi (independent sub-agent, round 5)
+    PV("n7-C13-2", ["C01", "C02", "C03", "C04", "C05", "C06", "C07", "C08", "C09", "C10", "C11", "C12", "C13", "C15", "C16", "C17", "C18", "C19", "C20"], "selftest/patches/n7-C13-2.diff"),
+    # cvss/cvss4.py CVSS4.compute_base_score(), interpolation between macrovectors (anchor cvss4.py:536-606): the five copy-pasted per-EQ blocks ( (independent sub-agent, round 5)
+    PV("n7-C14-1", ["C01", "C02", "C03", "C04", "C05", "C06", "C07", "C08", "C09", "C10", "C11", "C12", "C13", "C14", "C15", "C16", "C17", "C18", "C19", "C20"], "selftest/patches/n7-C14-1.diff"),
+    # cvss/cvss3.py (anchor cvss3.py:230-382): helper extraction in the v3 formulas. The three copies of the impact sub-score equation (compute_is (independent sub-agent, round 5)
+    PV("n7-C14-2", ["C01", "C02", "C03", "C04", "C05", "C06", "C07", "C08", "C09", "C10", "C11", "C12", "C13", "C14", "C15", "C16", "C17", "C18", "C19", "C20"], "selftest/patches/n7-C14-2.diff"),
+    # cvss/cvss2.py (37 changed lines): temporal_vector() and environmental_vector() now delegate to a new helper CVSS2._group_vector(group, score (independent sub-agent, round 5)
+    PV("n7-C15-1", ["C01", "C02", "C03", "C04", "C05", "C06", "C07", "C08", "C09", "C10", "C11", "C12", "C13", "C15", "C16", "C17", "C18", "C19", "C20"], "selftest/patches/n7-C15-1.diff"),
+    # cvss/cvss3.py (43 changed lines): template/table driven rewrite of the C15 code. New private module-level data: _MODIFIED_TO_BASE (OrderedDi (independent sub-agent, round 5) - not decided (exit 2) by ['C05', 'C06', 'C07', 'C15', 'C18', 'C20']
+    PV("n7-C15-2", ["C01", "C02", "C03", "C04", "C08", "C09", "C10", "C11", "C12", "C13", "C16", "C17", "C19"], "selftest/patches/n7-C15-2.diff"),
+    # cvss/interactive.py (33 insertions, 27 deletions): helper extraction and table-driven prefix. The inline creation of a value name with hints (independent sub-agent, round 5)
+    PV("n7-C16-1", ["C01", "C02", "C03", "C04", "C05", "C06", "C07", "C08", "C09", "C10", "C11", "C12", "C13", "C15", "C16", "C17", "C18", "C19", "C20"], "selftest/patches/n7-C16-1.diff"),
+    # cvss/interactive.py (19 insertions, 21 deletions): the answer loop is restructured. Per metric a dict 'spelling' (upper-cased value -> speci (independent sub-agent, round 5)
+    PV("n7-C16-2", ["C01", "C02", "C03", "C04", "C05", "C06", "C07", "C08", "C09", "C10", "C11", "C12", "C13", "C15", "C16", "C17", "C18", "C19", "C20"], "selftest/patches/n7-C16-2.diff"),
+    # cvss/cvss_calculator.py, success branch of main() (36 changed lines): the second if/elif version chain that printed the heading and fetched  (independent sub-agent, round 5)
+    PV("n7-C17-1", ["C01", "C02", "C03", "C04", "C05", "C06", "C07", "C08", "C09", "C10", "C11", "C12", "C13", "C15", "C16", "C17", "C18", "C19", "C20"], "selftest/patches/n7-C17-1.diff"),
+    # cvss/cvss_calculator.py, argument/version handling of main() (43 changed lines): the three copy-pasted add_argument() calls for -2/-3/-4 bec (independent sub-agent, round 5)
+    PV("n7-C17-2", ["C01", "C02", "C03", "C04", "C05", "C06", "C07", "C08", "C09", "C10", "C11", "C12", "C13", "C15", "C16", "C17", "C18", "C19", "C20"], "selftest/patches/n7-C17-2.diff"),
+    # cvss/cvss3.py, behaviour preserving (26+/26- lines): CVSS3.as_json() is made table driven - the three copy-pasted blocks (mandatory / tempor (independent sub-agent, round 5)
+    PV("n7-C18-1", ["C01", "C02", "C03", "C04", "C05", "C06", "C07", "C08", "C09", "C10", "C11", "C12", "C13", "C15", "C16", "C17", "C18", "C19", "C20"], "selftest/patches/n7-C18-1.diff"),
+    # cvss/cvss2.py + cvss/cvss4.py, behaviour preserving (26+/35- lines): CVSS2.severities() replaces the if/elif chain by a different data struc (independent sub-agent, round 5)
+    PV("n7-C18-2", ["C01", "C02", "C03", "C04", "C05", "C06", "C07", "C08", "C09", "C10", "C11", "C12", "C13", "C15", "C16", "C17", "C18", "C19", "C20"], "selftest/patches/n7-C18-2.diff"),
+    # cvss/parser.py parse_cvss_from_text(): the candidate regex is compiled once into a module-level read-only constant VECTOR_CANDIDATE instead  (independent sub-agent, round 5)
+    PV("n7-C19-1", ["C01", "C02", "C03", "C04", "C05", "C06", "C07", "C08", "C09", "C10", "C11", "C12", "C13", "C15", "C16", "C17", "C18", "C19", "C20"], "selftest/patches/n7-C19-1.diff"),
+    # cvss/cvss3.py: the repeated 'Round up(Minimum[(1.08 x) (Impact + Exploitability), 10])' expression of compute_base_score() and compute_envir (independent sub-agent, round 5)
+    PV("n7-C19-2", ["C01", "C02", "C03", "C04", "C05", "C06", "C07", "C08", "C09", "C10", "C11", "C12", "C13", "C15", "C16", "C17", "C18", "C19", "C20"], "selftest/patches/n7-C19-2.diff"),
+    # cvss/cvss4.py CVSS4.compute_base_score(), the float arithmetic of the mean-distance step (anchor cvss4.py:536-606): the five copy-pasted 'if (independent sub-agent, round 5)
+    PV("n7-C20-1", ["C01", "C02", "C03", "C04", "C05", "C06", "C07", "C08", "C09", "C10", "C11", "C12", "C13", "C14", "C15", "C16", "C17", "C18", "C19", "C20"], "selftest/patches/n7-C20-1.diff"),
+    # cvss/interactive.py (anchor: raw_input/input selection at interactive.py:13-17 and the builder loop): (1) the 'try: string_input = raw_input (independent sub-agent, round 5)
+    PV("n7-C20-2", ["C01", "C02", "C03", "C04", "C05", "C06", "C07", "C08", "C09", "C10", "C11", "C12", "C13", "C15", "C16", "C17", "C18", "C19", "C20"], "selftest/patches/n7-C20-2.diff"),
 ]
